@@ -194,6 +194,11 @@ impl NamingActor {
     }
 
     pub fn create_at_new_system() -> Addr<Self> {
+        #[cfg(rnacos_verif)]
+        {
+            return Self::new().start();
+        }
+        #[allow(unreachable_code)]
         let (tx, rx) = std::sync::mpsc::sync_channel(1);
         std::thread::spawn(move || {
             let rt = System::new();
